@@ -579,6 +579,16 @@ func coordinate(cfg *Config) int {
 		dispatch := func(job Job) {
 			defer wg.Done()
 			w := <-workers
+			if time.Since(start) > deadline {
+				// the budget ran out while this job waited for a worker: not explored (the tier reports exhaustive:false)
+				workers <- w
+				mu.Lock()
+				scExh = false
+				pending--
+				cond.Broadcast()
+				mu.Unlock()
+				return
+			}
 			res, err := w.do(&job)
 			if err != nil {
 				// worker died: replace it, report
